@@ -65,6 +65,19 @@ def exhaustive_histories():
         yield [["new"], ["new"], a, b, ["convert", 0, 0], ["convert", 1, 0], ["convert", None, 0]]
 
 
+def structured_histories():
+    """convert / change one option / convert again on the same object, for every option, direction and program;
+    with a second object and option-less calls interleaved"""
+    for pi in range(len(PROGRAMS)):
+        for name in NAMES:
+            for v1, v2 in (OPTS[name], OPTS[name][::-1]):
+                yield [["new"], ["set", 0, name, v1], ["convert", 0, pi], ["set", 0, name, v2], ["convert", 0, pi],
+                       ["convert", None, pi]]
+                yield [["new"], ["new"], ["convert", 0, pi], ["set", 1, name, v2], ["convert", 1, pi], ["convert", 0, pi]]
+                yield [["new"], ["convert", 0, pi], ["set", 0, name, v2], ["reseed", 7], ["convert", 0, pi],
+                       ["convert", None, pi]]
+
+
 DEFAULTS = {"unparser": "ast.unparse", "expr_wrapper": "chain_call", "if_style": "if_expr"}
 
 
@@ -159,7 +172,7 @@ def run(chk, build, replay=None):
         if "history" in v:
             corpus = [v["history"]]
     nrand = 120 if chk.tier == "quick" else 1500
-    hists = list(corpus) + [gen_history(rng) for _ in range(nrand)]
+    hists = list(corpus) + list(structured_histories()) + [gen_history(rng) for _ in range(nrand)]
     if chk.tier == "thorough":
         hists += list(exhaustive_histories())
     answers = common.model_eval([hist_sexp(h) for h in hists])
